@@ -175,7 +175,8 @@ def _stencils(run, prog, mi):
                 run.fail('C20-R1', 'cherab.tools.inversions.admt_utils|generate_derivative_operators|%s|absent-neighbour' % cname,
                          FILE, loop.lineno, 'configuration %s: %s' % (cname, e))
                 continue
-            raise AnalysisError('cannot interpret stencil loop (%s): %s' % (cname, e))
+            run.undecided('C20-R1', 'configuration ' + cname, 'stencil loop not interpreted: %s' % str(e)[:80])
+            continue
         for op, (a, b) in target.items():
             row = m[op]
             fields = [(0, 0), (1, 0), (0, 1)]
@@ -539,7 +540,8 @@ def _admt(run, prog, mi):
             # recover the pre-diag coefficient: find assignment "c = (...)" before np.diag
             coef[cname] = got
     except Undecided as e:
-        raise AnalysisError('cannot extract operator coefficients: %s' % e)
+        run.undecided('C20-R4', 'calculate_admt assembly', 'cannot extract operator coefficients: %s' % str(e)[:80])
+        return
     # coefficients as assigned in the function (before assembly), from ev2.env
     for op, cname in names.items():
         want = ev2.env[cname] * scale * (2 if op == 'Dxy' else 1)
